@@ -14,7 +14,9 @@ LEVEL = "exploration"
 RULE = ("bounded-exhaustive enumeration (E1): payload length x packet counter x session key, each encoded by the "
         "library and parsed by the independent reference codec, and each reference-built response decoded by the "
         "library (direct seam and through the simulated wire); every single-bit flip of reference-built responses "
-        "for all 16 padding residues at the packet seam and through LAN.send. A case is (part,key,length,counter[,bit]); "
+        "for all 16 padding residues at the packet seam (every other flip right after the authentic packet was accepted by the same "
+        "protocol object) and through LAN.send; payloads built from the protocol's own literals (ERROR, 8370, 5A5A, pad bytes) alone and "
+        "at either end of ordinary data. A case is (part,key,length,counter[,bit]); "
         "non-trivial = payload length > 0 or tamper case")
 ASSUMPTIONS = [
     "AES single-block primitive of pycryptodome and hashlib SHA-256/MD5 are correct (reference codec does its own CBC chaining, padding and framing)",
@@ -37,6 +39,8 @@ def shards(tier):
     for k in range(nk):
         for lo in range(0, 301, 76):
             out.append(("enc", k, lo, min(lo + 76, 301)))
+    for k in range(nk):
+        out.append(("magic", k, 0, 0))
     for lo in range(0, 4096, 512):
         out.append(("ctr", 0, lo, lo + 512))
     out.append(("session", 1, 0, 70000))
@@ -141,6 +145,28 @@ def run_shard(shard, tier) -> Stats:
             if part == "enc" and st.samples == []:
                 st.samples.append({"part": part, "key": kidx, "len": a, "counter": 0,
                                    "request": bytes(sess.proto._encode_encrypted_request(0, al.payload("c05", a, 2))).hex()})
+        elif part == "magic":
+            # payloads made of the protocol's own literals (what the library itself compares received bytes with), alone and
+            # embedded at either end of ordinary data: content must never change how a verified packet is treated
+            lits = [b"ERROR", b"error", b"\x83\x70", b"\x5a\x5a", b"\xaa", b"\x20", b"\x00", b"\xff", b"\x10" * 16, b"\x01", b"\x0f" * 15]
+            pls = []
+            for lit in lits:
+                for rep in (1, 2, 7):
+                    pls.append(lit * rep)
+                for k in (3, 11, 27):
+                    pls.append(lit + al.payload("c05m", k, 3))
+                    pls.append(al.payload("c05m", k, 3) + lit)
+            for i, payload in enumerate(pls):
+                n = len(payload)
+                for c in (0, 7, 4095):
+                    try:
+                        pkt = sess.proto._encode_encrypted_request(c, payload)
+                        _check_request(st, f"magic{i}", kidx, sess.sk, n, c, pkt, payload)
+                    except Exception as e:  # noqa: BLE001
+                        st.violation(f"request with literal payload: encode raised {type(e).__name__}",
+                                     {"part": part, "key": kidx, "index": i, "counter": c}, "a packet", str(e)[:100])
+                    _check_response(st, f"magic{i}", kidx, sess, n, c, payload)
+                _check_response(st, f"magic{i}", kidx, sess, n, 7, payload, wire=True)
         elif part == "ctr":
             for c in range(a, b):
                 for r in range(16):
@@ -211,6 +237,12 @@ def run_shard(shard, tier) -> Stats:
                 m = bytearray(resp)
                 m[bit // 8] ^= 1 << (bit % 8)
                 m = bytes(m)
+                if bit % 2:
+                    # history: the authentic packet was received and accepted just before its damaged copy
+                    with memoryview(resp) as mv:
+                        if sess.proto._process_packet(mv) != payload:
+                            st.violation(f"tamper packet-seam residue={r}: authentic response not decoded", {"part": part, "residue": r, "bit": None},
+                                         "payload", "different")
                 try:
                     with memoryview(m) as mv:
                         got = sess.proto._process_packet(mv)
